@@ -52,14 +52,14 @@ fn make_spec(seed: u64, phase: &str, idx: u64, pool: &Pool) -> RunSpec {
     let mut spec = wgen::gen_workload(&mut rng, pool);
     match phase {
         "f0" | "enum" => {}
-        "f1" => spec.faults = wgen::transparent_plan(&mut rng),
+        "f1" => spec.faults.extend(wgen::transparent_plan(&mut rng)),
         "f2" => {
             let hint = model::expect(&spec)
                 .stdout
                 .map(|s| s.len() as u64)
                 .or_else(|| model::expect(&spec).outputs.values().next().map(|v| v.len() as u64))
                 .unwrap_or(2000);
-            spec.faults = wgen::hard_plan(&mut rng, hint);
+            spec.faults.extend(wgen::hard_plan(&mut rng, hint));
         }
         _ => {}
     }
@@ -145,20 +145,24 @@ fn run_phase(seed: u64, phase: &'static str, total: u64, pool: Arc<Pool>, thread
     let res = simcommon::par::run_indexed(threads, 0, total, 64 << 20, stop, move |w, idx| {
         let env = env_for(w);
         let spec = make_spec(seed, phase, idx, &pool);
-        let exp = model::expect(&spec);
         let mut recs = vec![];
         if phase == "enum" {
             let obs0 = exec::run(&env, &spec);
+            let exp = model::expect_in(&spec, &obs0.before);
             recs.push(record(phase, idx, 0, &spec, &exp, &obs0, idx < 2));
             let plans = wgen::enumerate_single_faults(&obs0.calls);
             for (k, plan) in plans.into_iter().enumerate() {
                 let mut s2 = spec.clone();
-                s2.faults = plan;
+                // ambient items (terminal, clock) stay; the fault under study is added
+                s2.faults.retain(|f| f.starts_with("tty:") || f.starts_with("clock:"));
+                s2.faults.extend(plan);
                 let obs = exec::run(&env, &s2);
+                let exp = model::expect_in(&s2, &obs.before);
                 recs.push(record(phase, idx, k as u64 + 1, &s2, &exp, &obs, false));
             }
         } else {
             let obs = exec::run(&env, &spec);
+            let exp = model::expect_in(&spec, &obs.before);
             recs.push(record(phase, idx, 0, &spec, &exp, &obs, idx < 3));
         }
         recs
@@ -231,8 +235,8 @@ fn replay(path: &str) -> i32 {
     let v: Value = simcommon::serde_json::from_str(&txt).unwrap_or_else(|e| simcommon::harness_error(&format!("{}: {}", path, e)));
     let spec = RunSpec::from_json(v.get("spec").unwrap_or(&Value::Null)).unwrap_or_else(|e| simcommon::harness_error(&e));
     let env = env_for(0);
-    let exp = model::expect(&spec);
     let obs = exec::run(&env, &spec);
+    let exp = model::expect_in(&spec, &obs.before);
     let vs = judge(&spec, &exp, &obs);
     println!("argv: svgbob {:?}", spec.argv());
     println!("faults: {:?}", spec.faults);
@@ -279,8 +283,8 @@ fn main() {
                 let idx: u64 = args.get(i + 2).and_then(|s| s.parse().ok()).unwrap_or(0);
                 let pool = Pool::load(&simcommon::repo_dir(), 6000);
                 let spec = make_spec(simcommon::verif_seed(), &phase, idx, &pool);
-                let exp = model::expect(&spec);
                 let obs = exec::run(&env_for(0), &spec);
+                let exp = model::expect_in(&spec, &obs.before);
                 println!("{}", simcommon::serde_json::to_string_pretty(&spec.to_json()).unwrap());
                 println!("expect.failure={:?} outputs={:?}", exp.failure, exp.outputs.keys().collect::<Vec<_>>());
                 println!("exit={:?} sig={:?}\nstderr={}\nlog:\n{}", obs.exit, obs.signal, String::from_utf8_lossy(&obs.stderr), obs.log);
@@ -351,8 +355,8 @@ fn check(tier: &str) -> i32 {
         }
         let spec = r.spec.clone().unwrap();
         // confirm by re-execution, then minimise, then replay the minimised description once more
-        let exp = model::expect(&spec);
         let mut obs = exec::run(&env, &spec);
+        let mut exp = model::expect_in(&spec, &obs.before);
         let mut again = judge(&spec, &exp, &obs);
         // runs fed through real pipes depend on kernel timing: give them a few attempts
         let attempts = if spec.stdin_pipe || !spec.fifos.is_empty() || nondeterministic { 6 } else { 1 };
@@ -361,6 +365,7 @@ fn check(tier: &str) -> i32 {
                 break;
             }
             obs = exec::run(&env, &spec);
+            exp = model::expect_in(&spec, &obs.before);
             again = judge(&spec, &exp, &obs);
         }
         if !again.iter().any(|x| shrink::same_class(x, v)) {
@@ -369,8 +374,8 @@ fn check(tier: &str) -> i32 {
             continue;
         }
         let small = shrink::shrink(&env, &spec, v);
-        let exp2 = model::expect(&small);
         let obs2 = exec::run(&env, &small);
+        let exp2 = model::expect_in(&small, &obs2.before);
         let vs2 = judge(&small, &exp2, &obs2);
         let (fs, fv, fo, fe) = match vs2.iter().find(|x| shrink::same_class(x, v)) {
             Some(x) => (small, x.clone(), obs2, exp2),
